@@ -37,6 +37,10 @@ func lineCoverage(diags []Diagnostic) (lines []int) {
 
 func InjectDiagnostics(content string, diags []Diagnostic, color output.Color) string {
 	lines := lineCoverage(diags)
+	if len(lines) == 0 {
+		// None of the diagnostics points at a line, there is no snippet to show.
+		return ""
+	}
 	lastLine := slices.Max(lines)
 
 	diagPositions := make([]PositionRanges, len(diags))
